@@ -39,15 +39,39 @@ def run_case(c):
             o["x"][key] = type(ex).__name__
 
     ca = CouplingAnalysis(data.copy(), silence_level=3)
-    put("all", lambda: enc.arr(ca.cross_correlation(tau_max=tm, lag_mode="all")))
+    # every second case: the object has a HISTORY - it has answered the same questions for a larger maximal lag
+    # (and for lag 0) before; each estimate is a function of the data and the arguments of ITS call
+    import zlib
+    hist = zlib.crc32(c["case"].encode()) % 2 == 1 and T - (tm + 1) >= 3
+    rec["hist"] = int(hist)
+    if hist:
+        for est_kw in (dict(), ):
+            try:
+                ca.cross_correlation(tau_max=tm + 1, lag_mode="max")
+                ca.mutual_information(tau_max=tm + 1, estimator="binning", bins=2, lag_mode="all")
+                ca.mutual_information(tau_max=tm + 1, estimator="gauss", lag_mode="max")
+                ca.cross_correlation(tau_max=0, lag_mode="all")
+                ca.cross_correlation(tau_max=tm + 1, lag_mode="all")
+            except Exception:
+                pass
+    if not hist:
+        put("all", lambda: enc.arr(ca.cross_correlation(tau_max=tm, lag_mode="all")))
 
     def mx():
         v, l = ca.cross_correlation(tau_max=tm, lag_mode="max")
         o["maxl"] = enc.ints(l)
-        sv, sl = ca.symmetrize_by_absmax(v.copy(), l.copy())
+        ev = enc.arr(v)
+        # the caller symmetrises the very arrays it was handed (not copies) ...
+        sv, sl = ca.symmetrize_by_absmax(v, l) if hist else ca.symmetrize_by_absmax(v.copy(), l.copy())
         o["symv"], o["syml"] = enc.arr(sv), enc.ints(sl)
-        return enc.arr(v)
+        # ... and asks again: the same question has the same answer
+        v2, l2 = ca.cross_correlation(tau_max=tm, lag_mode="max")
+        o["maxv2"], o["maxl2"] = enc.arr(v2), enc.ints(l2)
+        o["all2"] = enc.arr(ca.cross_correlation(tau_max=tm, lag_mode="all"))
+        return ev
     put("maxv", mx)
+    if hist:       # (with a history the value / lag summary is asked for BEFORE the lag functions of this maximal lag)
+        put("all", lambda: enc.arr(ca.cross_correlation(tau_max=tm, lag_mode="all")))
     put("gauss", lambda: enc.arr(ca.mutual_information(tau_max=tm, estimator="gauss", lag_mode="all")))
     put("bin2", lambda: enc.arr(ca.mutual_information(tau_max=tm, estimator="binning", bins=2, lag_mode="all")))
 
@@ -97,6 +121,8 @@ def run_case(c):
         put("tmi4", lambda: enc.arr(Surrogates.test_mutual_information(orig.copy(), surr.copy(), n_bins=4)))
     for key in ("tpear", "tmi2", "tmi4", "partial", "mi", "mi_perm"):
         o.setdefault(key, [[0] * 3] * 3)
+    for key in ("maxv2", "maxl2", "all2"):
+        o.setdefault(key, o.get({"maxv2": "maxv", "maxl2": "maxl", "all2": "all"}[key], []))
     for key in ("all", "maxv", "maxl", "symv", "syml", "gauss", "bin2", "bin2max", "gaussmax", "pure0", "tsonis", "spearman", "all_aff", "all_perm",
                 "all_big", "pure0_big"):
         o.setdefault(key, [])
